@@ -695,7 +695,7 @@ def stream_dictlike(ctx: Ctx, n: int) -> Stream:
 		b = rng.choice(BRACKETS)
 		delims = rng.choice([':', ',', ':,'])
 		mode = 'clean' if i % 3 else 'dirty'
-		body, pieces = gen_dictlike(rng, b, delims, 1 + i % 3, mode)
+		body, pieces = gen_dictlike(rng, b, delims, 1 + i % 3, mode, i % 4 == 3)
 		text = ''.join(rng.choice(IDENT[:7]) for _ in range(rng.randint(0, 3))) + body
 		if i % 5 == 4:  # a loose variant: blanks around delimiters, text behind nested groups
 			text = text.replace(delims[0], f' {delims[0]} ').replace(b[1], b[1] + rng.choice(['', 'x', ' ']))
@@ -1498,7 +1498,7 @@ def search_bracket(ctx: Ctx) -> SearchResult:
 	return res
 
 
-def gen_tight(rng: random.Random, b: str, mode: str) -> str:
+def gen_tight(rng: random.Random, b: str, mode: str, wide: bool = False) -> str:
 	"""a piece without a top-level blank, delimiter or bracket of kind `b`: identifier characters, strings and groups of the
 	OTHER kinds (with anything balanced inside) — often two foreign groups directly behind each other (`f(1)[2, 3]`, `t[A](x, y)`)"""
 	others = [x for x in BRACKETS if x != b]
@@ -1508,26 +1508,28 @@ def gen_tight(rng: random.Random, b: str, mode: str) -> str:
 		if r < 0.45:
 			out += ''.join(rng.choice(IDENT) for _ in range(rng.randint(1, 3)))
 		elif r < 0.6:
-			out += render([gen_string(rng, mode, b)])
+			out += render([gen_string(rng, mode, '' if wide else b)])
 		else:
 			for _ in range(1 if rng.random() < 0.5 else 2):
 				o = rng.choice(others)
-				out += o[0] + render(gen_items(rng, rng.randint(0, 2), mode, 3, 0.4, b, o)).replace(b[0], '').replace(b[1], '') + o[1]
+				inside = render(gen_items(rng, rng.randint(0, 2), mode, 3, 0.4, '' if wide else b, o))
+				# wide (theorem pair_spec): brackets of the parsed kind may stand inside strings and (balanced) inside foreign groups
+				out += o[0] + (inside if wide else inside.replace(b[0], '').replace(b[1], '')) + o[1]
 	return out
 
 
-def gen_dictlike(rng: random.Random, b: str, delims: str, depth: int, mode: str) -> tuple[str, list[tuple[str, Any]]]:
+def gen_dictlike(rng: random.Random, b: str, delims: str, depth: int, mode: str, wide: bool = False) -> tuple[str, list[tuple[str, Any]]]:
 	"""→ (text of `b[0] … b[1]`, pieces); a piece is (text, None) or (text, sub-pieces) for `name + nested dict`; an even number of pieces"""
 	pieces: list[tuple[str, Any]] = []
 	parts = []
 	for j in range(2 * rng.randint(0, 3)):
 		if depth > 0 and rng.random() < 0.3:
-			name = gen_tight(rng, b, mode) if rng.random() < 0.5 else ''
-			sub_text, sub = gen_dictlike(rng, b, delims, depth - 1, mode)
+			name = gen_tight(rng, b, mode, wide) if rng.random() < 0.5 else ''
+			sub_text, sub = gen_dictlike(rng, b, delims, depth - 1, mode, wide)
 			pieces.append((name + sub_text, sub))
 		else:
-			pieces.append((gen_tight(rng, b, mode), None))
-		parts.append((' ' if j and rng.random() < 0.7 else '') + pieces[-1][0])
+			pieces.append((gen_tight(rng, b, mode, wide), None))
+		parts.append(((' ' * rng.randint(0, 3) if wide else ' ') if j and rng.random() < 0.7 else '') + pieces[-1][0])
 	text = b[0]
 	for j, part in enumerate(parts):
 		text += part + (rng.choice(delims) if j + 1 < len(parts) else '')
@@ -1544,7 +1546,7 @@ def pair_spec(pieces: list[tuple[str, Any]]) -> list[tuple[str, str]]:
 def search_pair(ctx: Ctx) -> SearchResult:
 	B = _bp()
 	rng = ctx.sub_rng('law-pair')
-	res = SearchResult('parse_pair on dict-like fragments `{k: v, …}` / `name(a, b)` with blank-free pieces (identifiers, strings, foreign groups also directly adjacent, nested dicts): the (key, value) texts per depth (structure-side oracle)')
+	res = SearchResult('parse_pair on dict-like fragments `{k: v, …}` / `name(a, b)` with blank-free pieces (identifiers, strings, foreign groups also directly adjacent, nested dicts; in the wide half also brackets of the parsed kind inside strings and foreign groups, several blanks behind a delimiter, tokens as names): the (key, value) texts per depth (structure-side oracle)')
 	hist: dict[str, int] = {}
 	seen: set[str] = set()
 	fixed = [('{a: f(1)[2, 3]}', '{}', ':', [('a', 'f(1)[2, 3]')]), ('tag(a, t[A](x, y))', '()', ',', [('a', 't[A](x, y)'), ('x', 'y')]),
@@ -1562,8 +1564,9 @@ def search_pair(ctx: Ctx) -> SearchResult:
 		b = rng.choice(BRACKETS)
 		delims = rng.choice([':', ',', ':,'])
 		mode = 'clean' if i % 3 else 'dirty'
-		body, pieces = gen_dictlike(rng, b, delims, 1 + i % 2, mode)
-		name = ''.join(rng.choice(IDENT[:7]) for _ in range(rng.randint(0, 3)))
+		wide = i % 2 == 1
+		body, pieces = gen_dictlike(rng, b, delims, 1 + i % 2, mode, wide)
+		name = gen_tight(rng, b, mode, True) if wide and rng.random() < 0.5 else ''.join(rng.choice(IDENT[:7]) for _ in range(rng.randint(0, 3)))
 		text = name + body
 		want = pair_spec(pieces)
 		res.cases += 1
@@ -1572,7 +1575,7 @@ def search_pair(ctx: Ctx) -> SearchResult:
 			got = guarded(B.parse_pair, text, b, delims)
 		except Exception as e:  # noqa: BLE001
 			got = exc_enum(e)
-		k = f'{mode} pairs={min(len(want), 5)}'
+		k = f"{mode}{' wide' if wide else ''} pairs={min(len(want), 5)}"
 		hist[k] = hist.get(k, 0) + 1
 		if got != want:
 			res.findings.append(Finding(key='parse_pair:pairs-differ', what=f'parse_pair({text!r}, {b!r}, {delims!r}) = {got!r}, expected {want!r}', replay={'text': text, 'brackets': b, 'delimiter': delims}))
@@ -1668,6 +1671,7 @@ STATEMENTS: dict[str, str] = {
 	'query_any_args': 'DecoratorQuery.any_args(subject) (production: deco_ignore.any_args(inherit) in class/_inherits.j2) = the decorators whose text between the first "(" and the last character contains subject, in order; for path(args) that text is args',
 	'quoted_literal / quoted_literal_spec / quoted_simple_string': 'is_quoted_literal(q + body + q, q) for a one-character quote = every quote character of the body stands behind a backslash (one in the first position never does); on EVERY text the result is quotedSpec (empty: no; the quote alone: yes; otherwise starts and ends with the quote and the inside is escaped); the loop never exhausts its fuel; the simple strings of the fragment grammar are quoted literals',
 	'var_type_pattern / var_type_origin_plain / var_type_origin_const': 'Param.var_type_origin of [const ␠+] base [<…>] [*|&] = base for every non-empty base over [A-Za-z0-9_:] and every template-argument text: on the regex branch the GENERATED term of Param.VarType (var_type_pattern ties the proof to it) run by the backtracking matcher - the optional group takes const and all white space / is skipped, group 2 is the longest name run - and on the split("<")[0] branch',
+	'parse_dict_spec / pair_spec / pair_spec_even': 'dict-like texts name{item, item, …} (every item a blank-free token - identifier characters, strings, groups of the other bracket kinds with anything inside, also directly adjacent - or a possibly named nested block; one delimiter character of D and any number of blanks between items; unbounded nesting; every bracket kind, every set D of plain non-blank delimiter characters): parse() builds exactly the entry tree of the items, and parse_pair returns the consecutive (key, value) texts of the items followed by those of the nested blocks (two levels = Entry.unders, sorted by depth, pairs of equal depth only); with an even number of items: pairs of the dict, then pairs of the nested dicts',
 	'param_origin': 'the whole way for a C++ parameter: Param.parse("[const ]base[<…>][*|&] name = default") gives (type, name, default) and var_type_origin of that type is base - composition of param_unrestricted and var_type_origin_*',
 	'sep_multichar_rejoin_counterexample': 'for a multi-character delimiter the rejoin law is false when occurrences overlap: break_separator("a:::b", "::") = ["a", "", "b"]',
 }
@@ -1755,9 +1759,9 @@ def run(ctx: Ctx) -> int:
 		translate_ok=translate_ok, translate_msg=translate_msg,
 		statements={**STATEMENTS, **({'(retired call sites)': 'no longer production call sites of a BlockParser helper per the generated scan - the caller_* theorems about them remain statements about the helper composition only: ' + ', '.join(f'{op} = {CALLER_SITES[op][0]}' for op in sorted(retired_callers()))} if retired_callers() else {})},
 		partial={
-			'proved (all fragments, unbounded nesting, induction on Frag)': 'splitting = exact top-level split (hence cuts only at top-level delimiters, rejoin up to blanks, balanced pieces) for fragments with arbitrary simple strings; last bracket group of prefix+group (strings may contain the other bracket kinds and quotes); error branch; skip; decorator path/join_args/pieces and the key/value of positional and labelled pieces; parameter type/name/default for every default fragment; parse_bracket = the groups two levels deep in pre-order; the production callers (throw / dict-comprehension / pluck / indexer / is_initializer_call; the former range splitting only as a statement about the helpers); DecoratorQuery.any / contains / any_args; termination of _parse/_parse_block/_analyze_entry on every text; is_quoted_literal for a one-character quote on every text (exact characterisation); Param.var_type_origin on [const] base [<…>] [*|&] over the generated regular expression',
+			'proved (all fragments, unbounded nesting, induction on Frag)': 'splitting = exact top-level split (hence cuts only at top-level delimiters, rejoin up to blanks, balanced pieces) for fragments with arbitrary simple strings; last bracket group of prefix+group (strings may contain the other bracket kinds and quotes); error branch; skip; decorator path/join_args/pieces and the key/value of positional and labelled pieces; parameter type/name/default for every default fragment; parse_bracket = the groups two levels deep in pre-order; the production callers (throw / dict-comprehension / pluck / indexer / is_initializer_call; the former range splitting only as a statement about the helpers); DecoratorQuery.any / contains / any_args; termination of _parse/_parse_block/_analyze_entry on every text; the parse_pair law and the entry tree of parse on dict-like texts with delimiters (pair_spec, parse_dict_spec: unbounded nesting, every bracket kind and delimiter set); is_quoted_literal for a one-character quote on every text (exact characterisation); Param.var_type_origin on [const] base [<…>] [*|&] over the generated regular expression',
 			'formerly false, proved after the repairs 3111a97 d6d867d eb33d21 f350973': 'param_unrestricted, decorator_positional, sep_spec_dirty, bracket_first/bracket_spec; the old witnesses are replayed from corpus/C18 and by the searches and must pass',
-			'correspondence + search only': 'the parse_pair law ((key, value) texts per depth on dict-like fragments with blank-free pieces, incl. directly adjacent foreign groups: structure-side oracle + stream block-dictlike; parse_pair has no caller); DecoratorHelper.match / match_args (regular expressions with caller-supplied patterns: no shipped pattern and no call site exists - the generated call-site scan finds none - so they are checked by search against CPython re only); multi-character delimiters that contain a bracket character or overlap themselves ("->", "::": correspondence only; the overlap counterexample is a theorem), empty delimiter, brackets arguments of other lengths, unbalanced text (correspondence); parse_to_formatter(…).format() (no caller: model + stream block-view + the round-trip law "dict-like text comes back with one blank behind every delimiter" by search); is_quoted_literal with multi-character or empty quotes, var_type_origin outside the shape (correspondence)',
+			'correspondence + search only': 'parse / parse_pair outside the dict-like shape (blanks inside or in front of a delimiter, text behind a nested block: stream block-dictlike loose variants); DecoratorHelper.match / match_args (regular expressions with caller-supplied patterns: no shipped pattern and no call site exists - the generated call-site scan finds none - so they are checked by search against CPython re only); multi-character delimiters that contain a bracket character or overlap themselves ("->", "::": correspondence only; the overlap counterexample is a theorem), empty delimiter, brackets arguments of other lengths, unbalanced text (correspondence); parse_to_formatter(…).format() (no caller: model + stream block-view + the round-trip law "dict-like text comes back with one blank behind every delimiter" by search); is_quoted_literal with multi-character or empty quotes, var_type_origin outside the shape (correspondence)',
 		},
 		assumptions=[
 			'fragments are rendered with the ASCII bracket/quote characters of BlockParser._all_pair (generated table; the proofs are redone when it changes)',
